@@ -140,3 +140,28 @@ M = [
     ("C20", T, "    ubi = n.asarray(ubi_matrix, float)\n    if CHECKS.activated: checks._check_ubi_matrix(ubi)\n    unit_cell = ubi_to_cell(ubi)",
      "    ubi = n.asarray(ubi_matrix, float)\n    unit_cell = ubi_to_cell(ubi)\n    if CHECKS.activated: checks._check_ubi_matrix(ubi)", None, "violation", "C20:site:xfab/tools.py:ubi_to_u:param0"),
 ]
+
+# ---------------------------------------------------------------- regression entries from the seeded changes (round 2)
+M += [
+    ("C04", SG, '            klass_name = sgdic[sub("\\s+", "", sgname).lower()] \n            if sub("\\s+", "", sgname).lower()[0]=="r" and sub("\\s+", "", sgname).lower()[-1]=="r":',
+     '            sgname = sub("\\s+", "", sgname).lower()\n            klass_name = sgdic[sgname] \n            if sgname[0]=="r" and sgname[-1]=="r":', None, "silent", ""),
+    ("C04", SG, '            klass_name = sgdic[sub("\\s+", "", sgname).lower()] \n            if sub("\\s+", "", sgname).lower()[0]=="r" and sub("\\s+", "", sgname).lower()[-1]=="r":',
+     '            sgname = sub("\\s+", "", sgname)\n            klass_name = sgdic[sgname.lower()] \n            if sgname.startswith("R") and sgname.endswith("r"):', None, "violation", "C04:lookup:r-suffix"),
+    ("C12", Y, "            rot[i] = np.dot(B,np.dot(np.linalg.inv(perm[i]),Binv))", "            rot[i] = np.dot(B,np.dot(perm[i].T,Binv))", 2, "violation", "C12:pair:6:inverse"),
+    ("C13", L, "    T = np.dot(B0,np.linalg.inv(B))", "    T = np.linalg.solve(B, B0)", None, "violation", "C13:b2e:laue.b_to_epsilon"),
+    ("C13", L, "    T = np.dot(B0,np.linalg.inv(B))", "    T = np.linalg.solve(B.T, B0.T).T", None, "silent", ""),
+    ("C15", S, "    for i in range(mysg.nsymop):\n        lp[i, :] = n.dot(mysg.rot[i], position) + mysg.trans[i]\n",
+     "    lp = n.dot(position, mysg.rot[:mysg.nsymop]) + mysg.trans[:mysg.nsymop]\n", None, "violation", "C15:image:multiplicity"),
+    ("C15", S, "    for i in range(mysg.nsymop):\n        lp[i, :] = n.dot(mysg.rot[i], position) + mysg.trans[i]\n",
+     "    lp = n.dot(mysg.rot[:mysg.nsymop], position) + mysg.trans[:mysg.nsymop]\n", None, "silent", ""),
+    ("C18", T, "                tmp = n.dot(a_mat, n.array([i, j, k]))\n", "                if i*i + j*j + k*k >= uvw*uvw:\n                    continue\n                tmp = n.dot(a_mat, n.array([i, j, k]))\n", None, "violation", "C18:vectors:tools.coverage"),
+    ("C18", T, "                tmp = n.dot(a_mat, n.array([i, j, k]))\n", "                if i*i + j*j + k*k > 3*uvw*uvw:\n                    continue\n                tmp = n.dot(a_mat, n.array([i, j, k]))\n", None, "silent", ""),
+    ("C02", T, "    (U, B) = n.linalg.qr(UB)\n", "    B = n.linalg.cholesky(n.dot(UB.T, UB)).T\n    U = n.dot(UB, n.linalg.inv(B))\n", None, "violation", "C02:qr:tools.conditioning"),
+    ("C14", L, "    normal = np.dot(w_mat_x, np.dot(w_mat_y, np.array([0, 0, 1])))", "    normal = np.dot(w_mat_y, np.dot(w_mat_x, np.array([0, 0, 1])))", None, "violation", "C14:semantic:find_omega_quart"),
+    ("C11", D, "    det_size = n.array([detz_size-1,\n                        dety_size-1])\n    coor = n.dot(omat, coor)- n.clip", "    det_size = n.array([dety_size-1,\n                        detz_size-1])\n    coor = n.dot(omat, coor)- n.clip", None, "violation", "C11:pixel-map"),
+    ("C17", S, "                adp = [ self.remove_esd(cifblk['_atom_site_aniso_U_11'][anisonumber]),\n                        self.remove_esd(cifblk['_atom_site_aniso_U_22'][anisonumber]),\n                        self.remove_esd(cifblk['_atom_site_aniso_U_33'][anisonumber]),\n                        self.remove_esd(cifblk['_atom_site_aniso_U_23'][anisonumber]),\n                        self.remove_esd(cifblk['_atom_site_aniso_U_13'][anisonumber]),\n                        self.remove_esd(cifblk['_atom_site_aniso_U_12'][anisonumber])]",
+     "                adp = [self.remove_esd(cifblk['_atom_site_aniso_U_' + ij][anisonumber]) for ij in ('11', '22', '33', '23', '13', '12')]", None, "silent", ""),
+    ("C17", S, "                adp = [ self.remove_esd(cifblk['_atom_site_aniso_U_11'][anisonumber]),\n                        self.remove_esd(cifblk['_atom_site_aniso_U_22'][anisonumber]),\n                        self.remove_esd(cifblk['_atom_site_aniso_U_33'][anisonumber]),\n                        self.remove_esd(cifblk['_atom_site_aniso_U_23'][anisonumber]),\n                        self.remove_esd(cifblk['_atom_site_aniso_U_13'][anisonumber]),\n                        self.remove_esd(cifblk['_atom_site_aniso_U_12'][anisonumber])]",
+     "                adp = [self.remove_esd(cifblk['_atom_site_aniso_U_' + ij][anisonumber]) for ij in ('11', '22', '33', '12', '13', '23')]", None, "violation", "C17:cif:Uani"),
+    ("C19", P, "        self.varylist = vl", "        self.varylist = [v for v in self.variable_list if v in vl]", None, "violation", "C19:vary:set_varylist"),
+]
